@@ -126,10 +126,10 @@ func renderLoopModel(p *Prog, fn *ssa.Function) renderModel {
 		switch calleeName(&call.Call) {
 		case "(*strings.Builder).WriteString":
 			ps := renderParts(call.Call.Args[1])
-			if len(ps) != 1 {
-				return strings.Join(ps, "+"), true
+			if len(ps) == 0 {
+				return "val:?", true
 			}
-			return ps[0], true
+			return strings.Join(ps, "\x01"), true // several parts: split again by the caller
 		case "(*strings.Builder).WriteByte", "(*strings.Builder).WriteRune":
 			if k, ok := constInt(call.Call.Args[1]); ok {
 				return "const:" + string(rune(k)), true
@@ -280,7 +280,7 @@ func renderLoopModel(p *Prog, fn *ssa.Function) renderModel {
 			}
 			for _, ins := range b.Instrs {
 				if w, ok := isWrite(ins); ok {
-					acc = append(append([]string{}, acc...), w)
+					acc = append(append([]string{}, acc...), strings.Split(w, "\x01")...)
 				}
 			}
 			switch t := b.Instrs[len(b.Instrs)-1].(type) {
